@@ -619,6 +619,7 @@ func (e *Engine) registerModels() {
 	}
 	e.registerIntrinsics()
 	e.registerCodecModels()
+	e.registerCLIModels()
 }
 
 // symbolicSort sorts a slice of hash codes with a compare-exchange network: the real
